@@ -502,6 +502,37 @@ def _no_source_mutation(col, rule="C14.R5"):
                 "a derivation never mutates the source's column list or data mapping (directly or through an alias)", str(bad))
 
 
+COPYING = ("array", "copy", "list", "tuple", "sorted", "zeros", "empty", "arange", "where", "nonzero", "concatenate", "deepcopy", "astype")
+
+
+def _selector_not_mutated(col, rule="C14.R5"):
+    """a selector handed to a row / column selection may be a column of the source (or a view of one): the selection never writes
+    into it -- `np.asarray(row)` is the caller's array, `np.array(row)` a copy"""
+    repo = col.repo
+    n = 0
+    for f in ("_get_row_indices", "_get_row_index", "_select_rows", "_select_cols", "_select", "_get_regexp_indices"):
+        if not repo.has_method("Table", f):
+            continue
+        sx = tctx(repo, f)
+        n += 1
+        bad = []
+        for ev in sx.of_kind("store"):
+            for t in S.alts(ev.target):
+                if t[:1] != ("sub",):
+                    continue
+                for base in S.alts(t[1]):
+                    subs = list(S.subterms(base))
+                    from_param = any(x[:1] == ("param",) and x != S.SELF for x in subs) and not any(x == S.SELF for x in subs)
+                    copied = any(S.is_call_of(x) and ((x[1][:1] == ("attr",) and x[1][2] in COPYING) or (x[1][:1] == ("glob",) and x[1][1] in COPYING))
+                                 for x in subs)
+                    if from_param and not copied and base[:1] != ("acc",):
+                        bad.append(S.show(t)[:80])
+        col.add(rule, f"Table.{f}#selector-argument-not-written", not bad, sx.loc(sx.fn),
+                "a selection does not write into the selector it was given (it may alias a column of the source)", str(bad[:2]), positive=bool(bad))
+    if n < 3:
+        raise AnalysisError("fewer than 3 selection functions of Table found -- cannot decide")
+
+
 def _column_rebinding(col, rule="C14.R7"):
     """t[name] = value on an EXISTING column writes into the column (numpy checks / broadcasts the length); it never
     rebinds the entry to an object of unchecked length -- the table and everything derived from it would be ragged"""
@@ -603,6 +634,8 @@ def check(col: Collector):
         _attrs(col)
     with col.rule():
         _no_source_mutation(col)
+    with col.rule():
+        _selector_not_mutated(col)
     with col.rule():
         _checked_ctor(col)
     with col.rule():
